@@ -1,1 +1,47 @@
-fn main(){ println!("{:?}", cddl::cddl_from_str("a = int", false).is_ok()); }
+mod c11;
+mod cborref;
+mod core;
+use crate::core::*;
+
+fn main() {
+  let args: Vec<String> = std::env::args().collect();
+  if args.len() < 2 {
+    eprintln!("usage: mc <ID> <quick|thorough> | mc replay <file>");
+    std::process::exit(2);
+  }
+  if args[1] == "replay" {
+    let s = std::fs::read_to_string(&args[2]).expect("read replay file");
+    let j: serde_json::Value = serde_json::from_str(&s).expect("json");
+    let prop = j["property"].as_str().unwrap_or("");
+    quiet_panics();
+    let r = match prop {
+      "C11" => c11::replay(&j["case"]),
+      _ => {
+        eprintln!("ENGINE-ERROR no replay for {prop}");
+        std::process::exit(2)
+      }
+    };
+    match r {
+      Some(v) => {
+        println!("REPRODUCED property={} kind={} observed={} expected={}", prop, v.kind, v.observed, v.expected);
+        std::process::exit(1)
+      }
+      None => {
+        println!("NOT-REPRODUCED property={prop}");
+        std::process::exit(0)
+      }
+    }
+  }
+  let tier = match std::env::var("VERIF_TIER").ok().as_deref().or(args.get(2).map(|s| s.as_str())) {
+    Some("thorough") => Tier::Thorough,
+    _ => Tier::Quick,
+  };
+  let code = match args[1].as_str() {
+    "C11" => c11::run(tier),
+    x => {
+      eprintln!("ENGINE-ERROR unknown property {x}");
+      2
+    }
+  };
+  std::process::exit(code);
+}
